@@ -259,11 +259,13 @@ def explore_run1(params, chooser):
 def jobs(tier, seed):
     js = []
     if tier == 'quick':
-        combos = [('cycle', 'r'), ('redir', 'r'), ('reqs', 'r-p'), ('depth', 'r-l2')]
+        combos = [('cycle', 'r'), ('redir', 'r'), ('reqs', 'r-p'), ('depth', 'r-l2'),
+                  ('cycle', 'r-t1')]
         concs = (1, 2)
     else:
         combos = [('cycle', 'r'), ('redir', 'r'), ('reqs', 'r-p'), ('depth', 'r-l2'),
-                  ('spell', 'r'), ('twostart', 'r'), ('parent', 'r-np'), ('twohost', 'r')]
+                  ('spell', 'r'), ('twostart', 'r'), ('parent', 'r-np'), ('twohost', 'r'),
+                  ('cycle', 'r-t1'), ('reqs', 'r-t1')]
         concs = (1, 2)
     for s, o in combos:
         for c in concs:
